@@ -165,7 +165,7 @@ def gen_cases(tier, seed):
     else:
         sel = isos
     for k, iso in enumerate(sel):
-        nvar = 3 if tier == "quick" else 10
+        nvar = 3 if tier == "quick" else 30
         for j in range(nvar):
             o = workload.base_country(NMONTHS=workload.FAMILIES_COMMON["NMONTHS"][(k + j) % 7])
             if j > 0:
@@ -187,7 +187,7 @@ def gen_cases(tier, seed):
     # multi-country calls: the countries whose options the repository rewrites on purpose come first in table order (ALB is
     # the second row), so every call contains one of them together with countries handled after it
     tabs = isos
-    for j in range(6 if tier == "quick" else 60):
+    for j in range(6 if tier == "quick" else 200):
         o = workload.base_country(NMONTHS=rnd.choice([120, 72, 48]))
         if j % 2 == 0:
             o.update(scenario=rnd.choice(["all_resilient_foods", "seaweed"]), cull="do_eat_culled", shutoff=rnd.choice(["continued", "long_delayed_shutoff", "short_delayed_shutoff"]))
@@ -198,7 +198,7 @@ def gen_cases(tier, seed):
                 o[f] = rnd.choice(fam[f])
         sel = rnd.sample(["ALB", "SLV", "ECU"], rnd.choice([1, 2])) + rnd.sample(tabs, 8 if tier == "quick" else 20)
         cases.append({"kind": "batch", "countries": sel, "opts": o, "id": "batch#%d" % j})
-    n = 40 if tier == "quick" else 400
+    n = 40 if tier == "quick" else 1600
     for cls in ("outdoor_crops", "seafood", "stored_food", "methane_scp", "cellulosic_sugar", "seaweed", "feed_and_biofuels", "grass"):
         for k in range(n // 4 if tier == "quick" else n // 4):
             cases.append({"kind": "direct", "cls": cls, "gen_seed": seed * 1009 + k, "examples": 20, "id": "%s#%d" % (cls, k)})
